@@ -10,6 +10,7 @@ SPECS = os.path.join(VERIF, "specs")
 HARNESS = os.path.join(VERIF, "harness")
 VH = os.path.join(HARNESS, "target", "vh", "vh")
 VHCHK = os.path.join(HARNESS, "target", "vhchk", "vh")     # the same harness with overflow checks, debug assertions and std's unsafe-precondition checks
+VHDBG = os.path.join(HARNESS, "target", "vhdbg", "vh")     # the same harness unoptimised (deep-run scenarios of C08)
 TLA_CP = "/opt/veriftools/tla/tla2tools.jar:/opt/veriftools/tla/CommunityModules-deps.jar"
 
 
@@ -55,10 +56,10 @@ class Ctx:
         self.quick = tier == "quick"
 
     # ------------------------------------------------------------------ build
-    def build_harness(self, checked=False):
-        global VH, VHCHK
+    def build_harness(self, checked=False, dbg=False):
+        global VH, VHCHK, VHDBG
         t = time.time()
-        profiles = ["vh"] + (["vhchk"] if checked else [])
+        profiles = ["vh"] + (["vhchk"] if checked else []) + (["vhdbg"] if dbg else [])
         env = dict(os.environ, CARGO_NET_OFFLINE="true")
         alt = os.environ.get("VERIF_REPO")
         if alt and os.path.abspath(alt) != "/repo":
@@ -76,6 +77,7 @@ class Ctx:
                     sys.stdout.write(p.stdout[-6000:]); raise ToolError("alt harness build failed")
             VH = os.path.join(hdir, "target", "vh", "vh")
             VHCHK = os.path.join(hdir, "target", "vhchk", "vh")
+            VHDBG = os.path.join(hdir, "target", "vhdbg", "vh")
             log("[build] ALT harness built against %s in %.1fs" % (alt, time.time() - t))
             return VH
         lock_src = "/repo/Cargo.lock"
@@ -171,8 +173,8 @@ class Ctx:
         return o
 
     # ------------------------------------------------------------------ harness
-    def vh(self, sub, inp, outp, jobs=12, fresh=False, timeout_ms=10000, timeout=1800, checked=False):
-        cmd = [VHCHK if checked else VH, "run", sub, "--in", inp, "--out", outp, "--jobs", str(jobs), "--timeout-ms", str(timeout_ms)]
+    def vh(self, sub, inp, outp, jobs=12, fresh=False, timeout_ms=10000, timeout=1800, checked=False, dbg=False):
+        cmd = [VHDBG if dbg else (VHCHK if checked else VH), "run", sub, "--in", inp, "--out", outp, "--jobs", str(jobs), "--timeout-ms", str(timeout_ms)]
         if fresh:
             cmd.append("--fresh")
         t = time.time()
@@ -184,7 +186,7 @@ class Ctx:
         tool = [o for o in obs if o["obs"].get("kind") in ("tool-error", "unimplemented")]
         if tool:
             raise ToolError("harness reported a tool error: %s" % json.dumps(tool[0])[:600])
-        log("[vh] %s: %d scenarios executed on the real code%s in %.1fs" % (sub, len(obs), " (checked build)" if checked else "", time.time() - t))
+        log("[vh] %s: %d scenarios executed on the real code%s in %.1fs" % (sub, len(obs), " (unoptimised build)" if dbg else (" (checked build)" if checked else ""), time.time() - t))
         return obs
 
     def vh_gen(self, sub, outp, n, extra=()):
@@ -226,9 +228,9 @@ class Ctx:
     def violation(self, sig, what, replay):
         """sig: dict of strings/ints identifying the class of the violating scenario and its outcome."""
         o = replay.get("obs") if isinstance(replay, dict) else None
-        if isinstance(o, dict) and o.get("kind") == "panic" and replay.get("scn", {}).get("build") == "checked":
-            # in the checked build the message of the panic is part of the signature (file names and line numbers removed)
-            sig = dict(sig, build="checked", panic_msg=re.sub(r"^\S*\.rs:\d+(:\d+)?:\s*", "", str(o.get("msg", "")))[:80])
+        if isinstance(o, dict) and o.get("kind") == "panic" and replay.get("scn", {}).get("build") in ("checked", "unoptimised"):
+            # in the checked / unoptimised build the message of the panic is part of the signature (file names and line numbers removed)
+            sig = dict(sig, build=replay["scn"]["build"], panic_msg=re.sub(r"^\S*\.rs:\d+(:\d+)?:\s*", "", str(o.get("msg", "")))[:80])
             sig.pop("where", None)
         self.violations.append({"sig": sig, "what": what, "replay": replay})
 
